@@ -23,6 +23,9 @@ FTY = [
     ("::core::marker::PhantomData<T>", False, "T", False), ("u8", False, "", "noneg"), ("::std::string::String", False, "", False),
     ("[u8; N]", False, "N", False), ("U", False, "U", True), (D + "Fwd<T>", False, "T", True), (D + "Yes", False, "", True),
     ("::std::boxed::Box<T>", False, "T", False), ("&'l str", True, "", False),
+    # a parameter mentioned only through a projection
+    ("I::Item", False, "I", False), ("::core::option::Option<I::Item>", False, "I", False), ("<I as ::core::iter::Iterator>::Item", False, "I", False),
+    ("(u8, ::std::vec::Vec<I::Item>)", False, "I", False),
 ]
 
 
@@ -118,6 +121,8 @@ def gen_case(rng):
         if lt:
             b = (b + " + 'l") if b else ": 'l"
         decl.append("T" + b)
+    if "I" in used:
+        decl.append("I: ::core::iter::Iterator")
     if "U" in used:
         decl.append("U" + (" = u8" if rng.random() < 0.4 and "N" not in used else ""))
     if "N" in used:
@@ -340,7 +345,10 @@ def run(rep, tier, rng):
             ft = features(c.meta["spec"]) if c.meta["src"] == "grammar" else c.meta["src"]
             tr = "+".join(sorted(set(c.meta["spec"]["traits"]) & set(ENUM_TRAITS))) if c.meta["src"] == "grammar" else ""
             msg = re.sub(r"\b([a-z_]*[a-z_])\d+\b", r"\1N", re.sub(r"`[a-z]\d+::", "`", d["message"] or ""))
-            sigs.setdefault(f"C20|{d['code']}|{msg[:60]}", []).append((c, d, ft, tr))
+            sig = f"C20|{d['code']}|{msg[:60]}"
+            if d["code"] == "E0793" and re.search(r"#\[repr\([^)]*packed", c.code):
+                sig = "C20|E0793|packed-struct"     # one signature for the listed finding (the same one C12 lists)
+            sigs.setdefault(sig, []).append((c, d, ft, tr))
     for sig, lst in list(sigs.items())[:30]:
         # report the smallest witness
         c, d, ft, tr = min(lst, key=lambda x: len(x[0].code))
@@ -363,7 +371,7 @@ def run(rep, tier, rng):
     rep.rule = ("programs of the other generators (comparison/Hash with helper attributes, Clone, operators, Debug, Default, all eight traits, "
                 "Deref) plus a crossing grammar: random trait lists (incl. operators on structs, split lists) x struct/enum shapes incl. empty "
                 "and single-variant enums x lifetime/type/const parameters with inline bounds, defaults and where-clauses mentioning `Self` x "
-                "field types over the parameters x ord/hash ignore/reverse/key/by (generic-friendly functions) with `by` on first/middle/last "
+                "field types over the parameters (also through projections `I::Item`) x ord/hash ignore/reverse/key/by (generic-friendly functions) with `by` on first/middle/last "
                 "fields, debug ignore/transparent/bound, default values, `Self` inside key expressions, a std #[derive(Default)] sharing the item, "
                 "a second derived type in the same scope, fields / variants under #[cfg(any())] / #[cfg(all())] and helper attributes inside "
                 "#[cfg_attr(all(), ..)] x both entry points; compiled metadata-only under #![deny(warnings)]. "
